@@ -209,6 +209,22 @@ func c03Random(c *Case) {
 	}
 	env := &xgen.Env{Doc: d, Ctx: ctx, Names: namesIn(d)}
 	e := g.PosPath(env, 5)
+	if pp, isPath := e.(xref.Path); isPath && g.Chance(0.25) {
+		// the positional path used as an existence predicate of an outer step: it is re-evaluated for every outer candidate
+		pp.Abs = false
+		if pp.Steps[0].Abbrev == "//" {
+			pp.Steps = append([]*xref.Step{xgen.SelfDot()}, pp.Steps...)
+		}
+		var pred xref.Expr = pp
+		if g.Chance(0.3) {
+			pred = xref.Call{Name: "not", Args: []xref.Expr{pp}}
+		}
+		outer := &xref.Step{Axis: g.Pick("child", "descendant", "descendant-or-self", "ancestor-or-self", "following-sibling"), Test: xref.Test{Kind: "*"}, Preds: []xref.Expr{pred}}
+		e = xref.Path{Abs: true, Steps: []*xref.Step{xgen.DSlash(), outer}}
+		if g.Chance(0.5) {
+			e = xref.Path{Steps: []*xref.Step{outer}}
+		}
+	}
 	src := xref.Render(e)
 	want, ok, why := refNodeSet(e, xref.NewCtx(ctx))
 	if !ok {
